@@ -72,7 +72,7 @@ SLICES = {
     # an acknowledgement refused because it does not fit the peer's Maximum Packet Size (5-byte PUBACK/PUBREC, limit 4)
     "rm_alias": dict(Vers={"v50"}, AppKinds={"publish"}, PeerKinds={"puback"}, QosSet={1}, Topics={"t1", ""}, Aliases={0, 1, 2},
                      AckTAMs={NA, 1}, AckRMs={1, 2}, MaxHeld=1, MaxUsed=2),
-    "in_rm_mps": dict(Vers={"v50"}, AppKinds={"puback", "pubrec"}, PeerKinds={"publish"}, QosSet={1, 2}, InPids={1, 2}, Rcs={0, 128},
+    "in_rm_mps": dict(Vers={"v50"}, AppKinds={"puback", "pubrec", "pubcomp"}, PeerKinds={"publish", "pubrel"}, QosSet={1, 2}, InPids={1, 2}, Rcs={0, 128},
                       ConnRMs={1}, AckMPSs={4}, MaxHeld=0),
     # topic aliases (C13)
     "alias_send": dict(Vers={"v50"}, AppKinds={"publish"}, PeerKinds={"puback"}, QosSet={0, 1}, Topics={"t1", "t2", ""},
@@ -103,7 +103,11 @@ SLICES = {
     "mps_resume": dict(Roles={"client", "server"}, Vers={"v50"}, AppKinds={"publish"}, PeerKinds={"puback", "pubrec", "pubcomp"}, QosSet={1, 2},
                        AckMPSs={NA, 3, 10, 11}, ConnMPSs={NA, 3, 10, 11}, AckRMs={NA, 2}, OptSets=[{"auto_pub"}], MaxConns=2, Cleans={False},
                        ConnSEIs={10}, SPs={True}, ExtraPids={1, 9}),
-    # keep-alive timers (C15, C19)
+    # a stored PUBLISH erased while no exchange is counted on the current connection (server between CONNECT and CONNACK,
+    # client with offline publishing between two connections): the send quota neither wraps nor panics
+    "erase_rm": dict(Roles={"client", "server"}, Vers={"v50"}, AppKinds={"publish"}, PeerKinds={"puback"}, QosSet={1}, MaxConns=2,
+                     Cleans={False}, SPs={True}, ConnSEIs={10}, ConnRMs={NA, 2}, AckRMs={NA, 2}, OptSets=[set(), {"offline"}],
+                     SendWhileDisc=True, Erase=True, MaxUsed=1, MaxHeld=1),
     "timers_c": dict(Vers={"v311", "v50"}, AppKinds={"pingreq", "publish", "disconnect"}, PeerKinds={"pingresp", "publish", "disconnect"},
                      QosSet={0}, KAs={0, 10}, SKAs={NA, 0, 5}, Intervals={NA, 0, 7}, RespTimeouts={0, 3}, Fire=True, MaxConns=2, MaxHeld=0,
                      AckMPSs={NA, 2}),
